@@ -62,6 +62,79 @@ def judge(case):
                        sample={"calls": out["calls"], "class": cls})
 
 
+def marginal_pressure(mix, model, t, x, P):
+    """harvesting only (no verdict depends on it): the permeate pressure at which the permeate-composition map, a linear
+    fractional map of y in pressure mode, has slope -1 at its fixed point and therefore is an involution - every start value
+    lies on a neutral 2-cycle.  Found with the library's own one-step function by bisection on the sign of
+    (G(G(y0)) - y0) relative to (G(y0) - y0), y0 = the library's start value.  Returns the bracketing pair of floats."""
+    mem = U.make_membrane(mix, P[0], P[1], t_ref=t, ea1=25000.0, ea2=60000.0)
+    pv = U.Pervaporation(membrane=mem, mixture=mix)
+    comp = U.Composition(p=x, type="weight")
+    p1, p2 = U.Permeance(value=P[0]), U.Permeance(value=P[1])
+    pf = U.pyvaporation.get_partial_pressures(t, mix, comp, model)
+    j0 = (P[0] * float(pf[0]), P[1] * float(pf[1]))
+    if not (j0[0] + j0[1] > 0 and math.isfinite(j0[0] + j0[1])):
+        return None
+    y0 = j0[0] / (j0[0] + j0[1])
+    ptot = float(pf[0]) + float(pf[1])
+
+    def G(y, p):
+        j = pv.get_partial_fluxes_from_permeate_composition(first_component_permeance=p1, second_component_permeance=p2, permeate_composition=U.Composition(p=y, type="weight"),
+                                                            feed_composition=comp, feed_temperature=t, permeate_pressure=p, calculation_type=model)
+        return float(j[0]) / (float(j[0]) + float(j[1]))
+
+    def h(p):
+        try:
+            y1 = G(y0, p)
+            if not (0 <= y1 <= 1) or y1 == y0:
+                return None
+            y2 = G(y1, p)
+        except Exception:  # noqa: BLE001
+            return None
+        return (y2 - y0) * (1 if y1 > y0 else -1)
+
+    prev = None
+    for k in range(1, 200):
+        p = ptot * k / 200
+        val = h(p)
+        if val is None:
+            prev = None
+            continue
+        if prev is not None and prev[1] > 0 and val <= 0:
+            lo, hi = prev[0], p
+            for _ in range(90):
+                mid = 0.5 * (lo + hi)
+                if mid == lo or mid == hi:
+                    break
+                vm = h(mid)
+                if vm is None:
+                    return None
+                if vm > 0:
+                    lo = mid
+                else:
+                    hi = mid
+            return lo, hi
+        prev = (p, val)
+    return None
+
+
+def judge_marginal(case):
+    """pressure mode at (and a few ulps / 1e-9 / 1e-6 beside) the pressure where the iteration is a neutral 2-cycle."""
+    if _CONFIRMED["n"] >= STOP_AFTER:
+        return core.result("skipped-after-%d-confirmed-violations" % STOP_AFTER, nontrivial=False, skipped=1)
+    mix = U.get_mixture(case["mixture"])
+    br = marginal_pressure(mix, case["model"], case["T"], case["x"], case["P"])
+    if br is None:
+        return core.result("no-marginal-pressure", nontrivial=False)
+    lo, hi = br
+    p = {"lo": lo, "hi": hi, "lo-": lo * (1 - 1e-9), "hi+": hi * (1 + 1e-9), "lo--": lo * (1 - 1e-6), "lo-3ulp": lo * (1 - 3 * 2.2e-16)}[case["where"]]
+    sub = {k: case[k] for k in ("mixture", "model", "T", "x", "P", "precision")}
+    sub["mode"] = ("p", p)
+    r = judge(sub)
+    r["outcome"] = "marginal:" + r["outcome"]
+    return r
+
+
 def judge_process(case):
     if _CONFIRMED["n"] >= STOP_AFTER:
         return core.result("skipped-after-%d-confirmed-violations" % STOP_AFTER, nontrivial=False, skipped=1)
@@ -212,6 +285,14 @@ def main(tier, seed):
         os.remove(f)
     m = core.run_space(rep, flux_space(tier, seed), judge)
     core.run_space(rep, process_space(tier, seed), judge_process)
+    q = tier == "quick"
+    marg = core.Space("pressure_mode_neutral_cycles", {
+        "mixture": ["H2O_EtOH", "S2"] if q else ["H2O_EtOH", "MeOH_DMC", "MeOH_Toluene", "S2"], "model": ["NRTL", "UNIQUAC"],
+        "T": core.lat([313.15, 333.15], seed)[:1] if q else core.lat([313.15, 333.15], seed), "x": core.lat([0.2, 0.5], seed) if q else core.lat([0.2, 0.5, 0.8], seed),
+        "P": [(1e-2, 1e-3), (1e-4, 1e-2)] if q else [(1e-2, 1e-3), (1e-4, 1e-2), (1e-2, 1e-4)], "precision": [5e-5] if q else [5e-5, 1e-8],
+        "where": ["lo", "hi", "lo-"] if q else ["lo", "hi", "lo-", "hi+", "lo--", "lo-3ulp"]},
+        lambda c: U.has_model(U.get_mixture(c["mixture"]), c["model"]))
+    core.run_space(rep, marg, judge_marginal, chunk=1, determinism_probe=0)
     dangerous = []
     for f in sorted(glob.glob("/dev/shm/c10_dangerous_%d_*.jsonl" % os.getpid())):
         dangerous += [json.loads(line) for line in open(f)]
@@ -240,7 +321,7 @@ def main(tier, seed):
 
 
 def replay(body):
-    fn = judge_drift if "offset" in body["case"] else (judge_entry_point if "ep" in body["case"] else (judge_process if "kind" in body["case"] else judge))
+    fn = judge_marginal if "where" in body["case"] else judge_drift if "offset" in body["case"] else (judge_entry_point if "ep" in body["case"] else (judge_process if "kind" in body["case"] else judge))
     r1 = fn(body["case"])
     _CONFIRMED["n"] = 0
     r2 = fn(body["case"])
